@@ -15,12 +15,17 @@ pub struct IndexMapSV { _p: u8 }
 #[verifier::external_body]
 pub struct Regex { _p: u8 }
 
+// std: Result::unwrap_or (no vstd specification in this Verus)
+pub assume_specification<T, E>[std::result::Result::<T, E>::unwrap_or](r: std::result::Result<T, E>, default: T) -> (o: T)
+    ensures o == (match r { Ok(v) => v, Err(_) => default });
+
 pub uninterp spec fn ord_of<T>(a: T, b: T) -> Ordering;
 pub uninterp spec fn pord_of(a: f64, b: f64) -> Option<Ordering>;
 pub uninterp spec fn eq_of<T>(a: T, b: T) -> bool;
 pub uninterp spec fn within_of<T: PartialOrd>(v: T, r: RangeType<T>) -> bool;
 pub uninterp spec fn re_valid(r: Seq<char>) -> bool;
 pub uninterp spec fn re_match(r: Seq<char>, s: Seq<char>) -> bool;
+pub uninterp spec fn re_runs(r: Seq<char>, s: Seq<char>) -> bool;
 
 // stands for `Ord::cmp` on String / char (R10: one-token substitution, listed)
 #[verifier::external_body]
@@ -56,11 +61,12 @@ impl Regex {
             res is Ok ==> res->Ok_0.pattern() == r@,
     { unimplemented!() }
 
-    // ASSUMPTION (the repository's own comment: "given that we have already validated the regular expression"):
-    // matching with a compiled expression does not fail at run time
+    // matching with a compiled expression CAN fail at run time (fancy_regex: backtrack limit exceeded) -- re_runs says
+    // whether it completes. (An earlier version of this model assumed, with the repository's comment "given that we
+    // have already validated the regular expression", that it cannot; that assumption hid a panic, see DESIGN 10.9.)
     #[verifier::external_body]
     pub fn is_match(&self, s: &str) -> (res: std::result::Result<bool, ExtError>)
-        ensures res is Ok, res->Ok_0 == re_match(self.pattern(), s@),
+        ensures res is Ok == re_runs(self.pattern(), s@), res is Ok ==> res->Ok_0 == re_match(self.pattern(), s@),
     { unimplemented!() }
 }
 
@@ -92,8 +98,8 @@ pub open spec fn peq_spec(a: PathAwareValue, b: PathAwareValue) -> bool {
     if a is Map && b is Map { eq_of(a->Map_0.1, b->Map_0.1) }
     else if a is List && b is List { eq_of(a->List_0.1, b->List_0.1) }
     else if a is Bool && b is Bool { a->Bool_0.1 == b->Bool_0.1 }
-    else if a is String && b is Regex { re_valid(b->Regex_0.1@) && re_match(b->Regex_0.1@, a->String_0.1@) }
-    else if a is Regex && b is String { re_valid(a->Regex_0.1@) && re_match(a->Regex_0.1@, b->String_0.1@) }
+    else if a is String && b is Regex { re_valid(b->Regex_0.1@) && re_runs(b->Regex_0.1@, a->String_0.1@) && re_match(b->Regex_0.1@, a->String_0.1@) }
+    else if a is Regex && b is String { re_valid(a->Regex_0.1@) && re_runs(a->Regex_0.1@, b->String_0.1@) && re_match(a->Regex_0.1@, b->String_0.1@) }
     else if a is Regex && b is Regex { eq_of(a->Regex_0.1, b->Regex_0.1) }
     else if a is Int && b is RangeInt { within_of(a->Int_0.1, b->RangeInt_0.1) }
     else if a is Float && b is RangeFloat { within_of(a->Float_0.1, b->RangeFloat_0.1) }
